@@ -458,7 +458,7 @@ def _r6b(ch, ctr):
     cl = parse_closure(f)
     n = ctr.next()
     call = ("{ %s %s }" % (bind(cl[0], "&%s[k_%d]" % (recv, n), False), cl[1])) if cl else "%s(&%s[k_%d])" % (f, recv, n)
-    return ("{\n let mut best_%d = None;\n let mut k_%d: usize = 0;\n /*@L:R6*/ while k_%d < %s.len()\n {\n let v_%d = %s;\n"
+    return ("{\n let mut best_%d: Option<usize> = None;\n let mut k_%d: usize = 0;\n /*@L:R6*/ while k_%d < %s.len()\n {\n let v_%d = %s;\n"
             " match best_%d { Some(b) => { if v_%d >= b { best_%d = Some(v_%d); } } None => { best_%d = Some(v_%d); } }\n k_%d += 1;\n }\n"
             " match best_%d { Some(b) => b, None => %s }\n}") % (n, n, n, recv, n, call, n, n, n, n, n, n, n, n, d)
 
@@ -644,7 +644,7 @@ def _r11_install(ch, ctr):
     if cl is None:
         return None
     recv = ch.prefix_text(len(ch.segs) - 1)
-    return "{ let pool_%d = %s; vx_pool_install(pool_%d); %s }" % (ctr.n, recv, ctr.n, _as_block(cl[1]))
+    return "{ vx_pool_install(%s); %s }" % (recv, _as_block(cl[1]))
 
 
 def _find_entry_idiom(text, ctr):
